@@ -151,6 +151,19 @@ theorem step_inv {s s' : St} {op : Op} {o : Out} (hi : Inv s) (h : step s op = s
       obtain ⟨b1, b2, sup, pos, own, own0⟩ := hi
       exact ⟨b1, b2, sup, pos, own, own0⟩
     · simp at h
+  case lock =>
+    simp only [Option.map_eq_some_iff, Prod.mk.injEq] at h
+    obtain ⟨s1, h1, rfl, _⟩ := h
+    obtain ⟨_, dl, ul, sc, rfl⟩ := lockCfg_spec h1
+    obtain ⟨b1, b2, sup, pos, own, own0⟩ := hi
+    exact ⟨b1, b2, sup, pos, own, own0⟩
+  case epoch =>
+    split at h
+    · simp only [Option.some.injEq, Prod.mk.injEq] at h
+      obtain ⟨rfl, _⟩ := h
+      obtain ⟨b1, b2, sup, pos, own, own0⟩ := hi
+      exact ⟨b1, b2, sup, pos, own, own0⟩
+    · simp at h
 
 theorem run_inv (ops : List Op) {s : St} (hi : Inv s) : Inv (run s ops) := by
   induction ops generalizing s with
@@ -215,6 +228,17 @@ theorem step_S_pos {s s' : St} {op : Op} {o : Out} (hi : Inv s) (hS : 0 < s.S)
       cases f <;> simp only [cfg, Option.pure_def, Option.some.injEq] at h1 <;> subst h1 <;>
         exact hS
   case advance =>
+    split at h
+    · simp only [Option.some.injEq, Prod.mk.injEq] at h
+      obtain ⟨rfl, _⟩ := h
+      exact hS
+    · simp at h
+  case lock =>
+    simp only [Option.map_eq_some_iff, Prod.mk.injEq] at h
+    obtain ⟨s1, h1, rfl, _⟩ := h
+    obtain ⟨_, dl, ul, sc, rfl⟩ := lockCfg_spec h1
+    exact hS
+  case epoch =>
     split at h
     · simp only [Option.some.injEq, Prod.mk.injEq] at h
       obtain ⟨rfl, _⟩ := h
